@@ -813,3 +813,27 @@ func specHexVal(b byte) byte {
 //@ ensures [C02.getinterval.type.index] old(depth(intp)) >= 3 && isType(old(top(intp, 2)), Array) && !isInt(old(top(intp, 1))) ==> isPSErr(result, eTypecheck)
 //@ ensures [C02.getinterval.type.count] old(depth(intp)) >= 3 && isType(old(top(intp, 2)), Array) && isInt(old(top(intp, 1))) && 0 <= asInt(old(top(intp, 1))) && asInt(old(top(intp, 1))) <= Integer(len(old(top(intp, 2)).(Array))) && !isInt(old(top(intp, 0))) ==> isPSErr(result, eTypecheck)
 //@ ensures [C02.getinterval.type.obj] old(depth(intp)) >= 3 && (isInt(old(top(intp, 2))) || isReal(old(top(intp, 2))) || isBool(old(top(intp, 2))) || isType(old(top(intp, 2)), Dict) || isType(old(top(intp, 2)), Name)) ==> isPSErr(result, eTypecheck)
+
+// put / putinterval write through to the one backing store every alias sees
+// (PLRM 8.2).  arrFrame: every element of the array other than position k,
+// and every other array, is unchanged.
+//@ define putArr(a, k, v) = a[k] == v && (forall j :: 0 <= j && j < len(a) && j != k ==> a[j] == old(a[j]))
+//@ func bPut
+//@ ensures [C02.put.underflow] old(depth(intp)) < 3 ==> isPSErr(result, eStackunderflow) && depth(intp) == old(depth(intp))
+//@ ensures [C02.put.array] old(depth(intp)) >= 3 && isType(old(top(intp, 2)), Array) && ref(old(top(intp, 2)).(Array)) != old(ref(intp.Stack)) && isInt(old(top(intp, 1))) && 0 <= asInt(old(top(intp, 1))) && asInt(old(top(intp, 1))) < Integer(len(old(top(intp, 2)).(Array))) ==> result == nil && depth(intp) == old(depth(intp)) - 3 && stackFrame(intp, 3) && putArr(old(top(intp, 2)).(Array), int(asInt(old(top(intp, 1)))), old(top(intp, 0)))
+//@ ensures [C02.put.array.range] old(depth(intp)) >= 3 && isType(old(top(intp, 2)), Array) && isInt(old(top(intp, 1))) && (asInt(old(top(intp, 1))) < 0 || asInt(old(top(intp, 1))) >= Integer(len(old(top(intp, 2)).(Array)))) ==> isPSErr(result, eRangecheck)
+//@ ensures [C02.put.array.type] old(depth(intp)) >= 3 && isType(old(top(intp, 2)), Array) && !isInt(old(top(intp, 1))) ==> isPSErr(result, eTypecheck)
+//@ ensures [C02.put.dict] old(depth(intp)) >= 3 && isType(old(top(intp, 2)), Dict) && isType(old(top(intp, 1)), Name) ==> result == nil && depth(intp) == old(depth(intp)) - 3 && stackFrame(intp, 3) && has(old(top(intp, 2)).(Dict), old(top(intp, 1)).(Name)) && old(top(intp, 2)).(Dict)[old(top(intp, 1)).(Name)] == old(top(intp, 0))
+//@ ensures [C02.put.dict.frame] old(depth(intp)) >= 3 && isType(old(top(intp, 2)), Dict) && isType(old(top(intp, 1)), Name) ==> (forall nm Name :: nm != old(top(intp, 1)).(Name) ==> has(old(top(intp, 2)).(Dict), nm) == old(has(top(intp, 2).(Dict), nm)) && old(top(intp, 2)).(Dict)[nm] == old(top(intp, 2).(Dict)[nm]))
+//@ ensures [C02.put.dict.type] old(depth(intp)) >= 3 && isType(old(top(intp, 2)), Dict) && !isType(old(top(intp, 1)), Name) ==> isPSErr(result, eTypecheck)
+//@ ensures [C02.put.string] old(depth(intp)) >= 3 && isType(old(top(intp, 2)), String) && isInt(old(top(intp, 1))) && 0 <= asInt(old(top(intp, 1))) && asInt(old(top(intp, 1))) < Integer(len(old(top(intp, 2)).(String))) && isInt(old(top(intp, 0))) && 0 <= asInt(old(top(intp, 0))) && asInt(old(top(intp, 0))) <= 255 ==> result == nil && depth(intp) == old(depth(intp)) - 3 && stackFrame(intp, 3) && putArr(old(top(intp, 2)).(String), int(asInt(old(top(intp, 1)))), byte(asInt(old(top(intp, 0)))))
+//@ ensures [C02.put.string.value.range] old(depth(intp)) >= 3 && isType(old(top(intp, 2)), String) && isInt(old(top(intp, 1))) && 0 <= asInt(old(top(intp, 1))) && asInt(old(top(intp, 1))) < Integer(len(old(top(intp, 2)).(String))) && isInt(old(top(intp, 0))) && (asInt(old(top(intp, 0))) < 0 || asInt(old(top(intp, 0))) > 255) ==> isPSErr(result, eRangecheck)
+//@ ensures [C02.put.string.value.type] old(depth(intp)) >= 3 && isType(old(top(intp, 2)), String) && isInt(old(top(intp, 1))) && 0 <= asInt(old(top(intp, 1))) && asInt(old(top(intp, 1))) < Integer(len(old(top(intp, 2)).(String))) && !isInt(old(top(intp, 0))) ==> isPSErr(result, eTypecheck)
+
+//@ define piOK(n, index, m) = 0 <= index && index <= n && m <= n - index
+//@ func bPutinterval
+//@ ensures [C02.putinterval.underflow] old(depth(intp)) < 3 ==> isPSErr(result, eStackunderflow) && depth(intp) == old(depth(intp))
+//@ ensures [C02.putinterval.array] old(depth(intp)) >= 3 && isType(old(top(intp, 2)), Array) && ref(old(top(intp, 2)).(Array)) != old(ref(intp.Stack)) && isInt(old(top(intp, 1))) && isType(old(top(intp, 0)), Array) && piOK(Integer(len(old(top(intp, 2)).(Array))), asInt(old(top(intp, 1))), Integer(len(old(top(intp, 0)).(Array)))) ==> result == nil && depth(intp) == old(depth(intp)) - 3 && stackFrame(intp, 3) && (forall j :: 0 <= j && j < len(old(top(intp, 0)).(Array)) ==> old(top(intp, 2)).(Array)[int(asInt(old(top(intp, 1)))) + j] == old(top(intp, 0).(Array)[j]))
+//@ ensures [C02.putinterval.array.frame] old(depth(intp)) >= 3 && isType(old(top(intp, 2)), Array) && ref(old(top(intp, 2)).(Array)) != old(ref(intp.Stack)) && isInt(old(top(intp, 1))) && isType(old(top(intp, 0)), Array) && piOK(Integer(len(old(top(intp, 2)).(Array))), asInt(old(top(intp, 1))), Integer(len(old(top(intp, 0)).(Array)))) ==> (forall j :: 0 <= j && j < len(old(top(intp, 2)).(Array)) && (j < int(asInt(old(top(intp, 1)))) || j >= int(asInt(old(top(intp, 1)))) + len(old(top(intp, 0)).(Array))) ==> old(top(intp, 2)).(Array)[j] == old(top(intp, 2).(Array)[j]))
+//@ ensures [C02.putinterval.array.range] old(depth(intp)) >= 3 && isType(old(top(intp, 2)), Array) && isInt(old(top(intp, 1))) && isType(old(top(intp, 0)), Array) && !piOK(Integer(len(old(top(intp, 2)).(Array))), asInt(old(top(intp, 1))), Integer(len(old(top(intp, 0)).(Array)))) ==> isPSErr(result, eRangecheck)
+//@ ensures [C02.putinterval.type] old(depth(intp)) >= 3 && isType(old(top(intp, 2)), Array) && isInt(old(top(intp, 1))) && asInt(old(top(intp, 1))) >= 0 && !isType(old(top(intp, 0)), Array) ==> isPSErr(result, eTypecheck)
